@@ -7,59 +7,122 @@ import (
 	"go/printer"
 	"go/token"
 	"go/types"
+	"regexp"
 	"strings"
+
+	"golang.org/x/tools/go/packages"
+	"golang.org/x/tools/go/types/typeutil"
 )
 
 // Collections (C10/C11): the cached emptiness/rectangle fold, the child
 // index, the two arms of Search, and the ∀/Σ folds of Valid and NumPoints.
+// The loop bodies are run on the abstract interpreter of E8 with the
+// children's methods as opaque atoms, and judged by what they do (state
+// afterwards, which calls were made with which arguments), not by their
+// syntactic form.
 
-func isSkipEmpty(st ast.Stmt, v string) bool {
-	is, ok := st.(*ast.IfStmt)
-	if !ok || is.Else != nil || len(is.Body.List) != 1 {
-		return false
+type loopSite struct {
+	fn   *types.Func
+	pkg  *packages.Package
+	loop *ast.RangeStmt
+}
+
+// childLoops: range loops over a `.children` slice in fn and in the repository
+// functions it calls directly (helpers extracted from it).
+func (p *Program) childLoops(fn *types.Func, depth int, seen map[*types.Func]bool) []loopSite {
+	fd, pkg := p.Decl(fn), p.DeclPkg(fn)
+	if fd == nil || seen[fn] || depth > 2 {
+		return nil
 	}
-	br, ok := is.Body.List[0].(*ast.BranchStmt)
-	if !ok || br.Tok != token.CONTINUE {
-		return false
+	seen[fn] = true
+	var out []loopSite
+	ast.Inspect(fd.Body, func(n ast.Node) bool {
+		switch x := n.(type) {
+		case *ast.RangeStmt:
+			if strings.HasSuffix(types.ExprString(x.X), ".children") {
+				out = append(out, loopSite{fn, pkg, x})
+			}
+		case *ast.CallExpr:
+			if callee, ok := typeutil.Callee(pkg.TypesInfo, x).(*types.Func); ok && p.IsRepoPkg(callee.Pkg()) && callee.Pkg() == fn.Pkg() {
+				if sig := callee.Type().(*types.Signature); sig.Recv() != nil && fn.Type().(*types.Signature).Recv() != nil &&
+					types.Identical(sig.Recv().Type(), fn.Type().(*types.Signature).Recv().Type()) {
+					out = append(out, p.childLoops(callee, depth+1, seen)...)
+				}
+			}
+		}
+		return true
+	})
+	return out
+}
+
+func mentions(n ast.Node, pred func(ast.Node) bool) bool {
+	found := false
+	ast.Inspect(n, func(x ast.Node) bool {
+		if x != nil && pred(x) {
+			found = true
+		}
+		return !found
+	})
+	return found
+}
+
+var reEmpty = regexp.MustCompile(`^Empty\(`)
+var reRectMinX = regexp.MustCompile(`^(Rect\(.*\))\.Min\.X$`)
+
+func firstBool(n *e8names, re *regexp.Regexp) string {
+	for _, b := range n.bools {
+		if re.MatchString(b) {
+			return b
+		}
 	}
-	return types.ExprString(is.Cond) == v+".Empty()"
+	return ""
 }
 
 func (p *Program) ruleCollectionFold(c *Check) {
 	fn := p.Method("geojson", "collection", "parseInitRectIndex")
-	fd, pkg := p.Decl(fn), p.DeclPkg(fn)
-	if fd == nil {
-		c.Undecided("E10.fold", "anchor:(*geojson.collection).parseInitRectIndex", "", "function not found")
+	name := "(*geojson.collection).parseInitRectIndex"
+	if p.Decl(fn) == nil {
+		c.Undecided("E10.fold", "anchor:"+name, "", "function not found")
 		return
 	}
-	info := pkg.TypesInfo
-	var loops []*ast.RangeStmt
-	ast.Inspect(fd.Body, func(n ast.Node) bool {
-		if rs, ok := n.(*ast.RangeStmt); ok && strings.HasSuffix(types.ExprString(rs.X), ".children") {
-			loops = append(loops, rs)
+	loops := p.childLoops(fn, 0, map[*types.Func]bool{})
+	var fold, build *loopSite
+	for i := range loops {
+		l := &loops[i]
+		if fold == nil && mentions(l.loop.Body, func(n ast.Node) bool {
+			as, ok := n.(*ast.AssignStmt)
+			if !ok {
+				return false
+			}
+			for _, lh := range as.Lhs {
+				if strings.HasSuffix(types.ExprString(lh), ".prect") {
+					return true
+				}
+			}
+			return false
+		}) {
+			fold = l
+			continue
 		}
-		return true
-	})
-	name := FuncName(fn)
-	if len(loops) < 2 {
-		c.Undecided("E10.fold", name, p.declPos(fn), "expected the fold loop and the index-building loop over the children")
+		if build == nil && mentions(l.loop.Body, func(n ast.Node) bool {
+			call, ok := n.(*ast.CallExpr)
+			return ok && strings.HasSuffix(types.ExprString(call.Fun), ".Insert")
+		}) {
+			build = l
+		}
+	}
+	if fold == nil || build == nil {
+		c.Undecided("E10.fold", name, p.declPos(fn), "the fold over the children (assigning the cached rectangle) and the loop that fills the child index were not both found in this function or the helpers it calls")
 		return
 	}
-	fold := loops[0]
-	child := types.ExprString(fold.Value)
-	if len(fold.Body.List) == 0 || !isSkipEmpty(fold.Body.List[0], child) {
-		c.Bad("E10.fold", name+"#skip-empty", p.Pos(fold.Pos()), "the fold over the children does not start by skipping empty children: an empty child would contribute its (meaningless) rectangle")
-		return
-	}
-	c.OK("E10.fold", name+"#skip-empty", p.Pos(fold.Pos()), "empty children are skipped before anything is accumulated")
-	// nothing may seed the accumulator from a child before the loop
+	// nothing may seed the accumulator before the fold
 	seeded := ""
-	for _, st := range fd.Body.List {
-		if st == ast.Stmt(fold) {
-			break
-		}
-		ast.Inspect(st, func(n ast.Node) bool {
-			if as, ok := n.(*ast.AssignStmt); ok {
+	if fd := p.Decl(fold.fn); fd != nil {
+		ast.Inspect(fd.Body, func(n ast.Node) bool {
+			if n == ast.Node(fold.loop) {
+				return false
+			}
+			if as, ok := n.(*ast.AssignStmt); ok && as.Pos() < fold.loop.Pos() {
 				for i, l := range as.Lhs {
 					if strings.HasSuffix(types.ExprString(l), ".prect") && i < len(as.Rhs) {
 						seeded = types.ExprString(as.Rhs[i])
@@ -71,50 +134,43 @@ func (p *Program) ruleCollectionFold(c *Check) {
 	}
 	c.Expect(seeded == "", "E10.fold", name+"#no-seed", p.declPos(fn), "the rectangle accumulator is not seeded before the fold",
 		"the rectangle accumulator is seeded with "+seeded+" before the fold: a child that the fold would skip (an empty one) can leak into the union")
-	// the inductive step, tabulated by the comparison-network engine
-	step := fold.Body.List[1:]
-	// the counter of non-empty children: the variable incremented unconditionally in the step
+	// the counter of non-empty children: an integer local incremented in the loop body
 	counterName := ""
-	for _, st := range step {
-		if ids, ok := st.(*ast.IncDecStmt); ok && ids.Tok == token.INC {
-			counterName = types.ExprString(ids.X)
+	ast.Inspect(fold.loop.Body, func(n ast.Node) bool {
+		if ids, ok := n.(*ast.IncDecStmt); ok && ids.Tok == token.INC {
+			if id, ok := ids.X.(*ast.Ident); ok {
+				counterName = id.Name
+			}
 		}
-	}
+		return true
+	})
 	atoms := []string{"0"}
 	if counterName != "" {
 		atoms = append(atoms, counterName)
 	}
-	row := &e8row{id: name + "#fold-step", fn: fn, lenEqOpaque: true,
-		what: "inductive step of the fold over non-empty children: the first one sets the rectangle, later ones enlarge it to the union; the collection becomes non-empty; the counter of non-empty children grows by one",
+	row := &e8row{id: name + "#fold-step", fn: fold.fn, lenEqOpaque: true, atoms: atoms,
+		what: "one iteration of the fold over the children: an empty child changes nothing; the first non-empty child sets the cached rectangle, later ones enlarge it to the union; the collection becomes non-empty; the counter of non-empty children grows by one",
 		run: func(in *e8interp) *e8out {
-			fr, out := p.bindInputs(in, fn)
-			r := in.runBody(fr, step)
+			fr, out := p.bindInputs(in, fold.fn)
+			r := in.runBody(fr, fold.loop.Body.List)
 			if r != nil && r != continueSignal {
 				e8fail("the fold step leaves the loop")
 			}
 			return out
 		},
 		group: func(n string) int {
-			if strings.HasPrefix(n, "count") || strings.HasPrefix(n, "(count") || n == "0" || n == "1" {
+			if !strings.Contains(n, ".") {
 				return 0
 			}
 			if _, ok := numericAtom(n); ok {
 				return 0
 			}
-			if !strings.Contains(n, ".") {
-				return 0
-			}
 			return axisGroup(n)
 		},
-		atoms: atoms,
 		pre: func(a *e8assign, n *e8names) bool {
-			cnt := n.match(`^[a-zA-Z_]+$`)
-			for _, s := range cnt {
-				if a.has(s, "0") && a.R(s) < a.R("0") {
-					return false
-				}
+			if counterName != "" && a.has(counterName, "0") && a.R(counterName) < a.R("0") {
+				return false
 			}
-			// rectangles are normalised
 			for _, pre := range [][2]string{{".Min.X", ".Max.X"}, {".Min.Y", ".Max.Y"}} {
 				for _, s := range n.scalars {
 					if strings.HasSuffix(s, pre[0]) {
@@ -128,52 +184,59 @@ func (p *Program) ruleCollectionFold(c *Check) {
 			return true
 		},
 		spec: func(a *e8assign, n *e8names, out *e8out) string {
-			// booleans: the child is not empty here
-			for _, b := range n.bools {
-				if strings.HasSuffix(b, ".Empty()") && a.B(b) {
-					return ""
-				}
+			eName := firstBool(n, reEmpty)
+			if eName == "" {
+				return "the child's emptiness is never consulted"
 			}
+			empty := a.B(eName)
 			recv := out.recv
-			if recv == nil {
-				return "receiver not bound"
-			}
 			pe := leaf(recv, "pempty")
-			if pe == nil || pe.k != kBool {
-				return "pempty not found"
+			pr := leaf(recv, "prect")
+			if pe == nil || pe.k != kBool || pr == nil {
+				return "the cached emptiness/rectangle fields were not found on the receiver"
 			}
 			peVal := pe.b
 			if pe.name != "" {
 				peVal = a.B(pe.name)
 			}
-			counter := counterName
+			pre0, havePre := a.bools["recv.pempty"]
 			first := true
-			if counter != "" {
-				first = a.R(counter) == a.R("0")
-			}
-			// invariant on entry: pempty <=> nothing seen yet; infeasible combinations are skipped
-			if in0, ok := a.bools["recv.pempty"]; ok && counter != "" && in0 != first {
-				return ""
+			if counterName != "" {
+				first = a.R(counterName) == a.R("0")
+				if havePre && pre0 != first {
+					return "" // infeasible: the collection is marked empty exactly while no non-empty child was seen
+				}
+			} else if havePre {
+				first = pre0
 			}
 			for _, b := range n.bools {
 				if strings.HasPrefix(b, "len(") && a.B(b) && !first {
 					return "" // a single child cannot be the second non-empty one
 				}
 			}
-			if peVal {
-				return "after a non-empty child the collection is still marked empty"
+			// counter discipline
+			if counterName != "" {
+				for o, v := range out.fr.vars {
+					if o != nil && o.Name() == counterName && v.k == kScalar {
+						want := counterName
+						if !empty {
+							want = "(" + counterName + "+1)"
+						}
+						if v.name != want {
+							return "the counter of non-empty children is " + v.name + " after the iteration, expected " + want
+						}
+					}
+				}
 			}
-			R := func(s string) int { return a.R(s) }
-			var crect string
+			crect := ""
 			for _, s := range n.scalars {
-				if strings.HasSuffix(s, ".Rect().Min.X") {
-					crect = strings.TrimSuffix(s, ".Min.X")
+				if m := reRectMinX.FindStringSubmatch(s); m != nil {
+					crect = m[1]
 				}
 			}
 			if crect == "" {
 				return "the child's rectangle is not read"
 			}
-			pr := leaf(recv, "prect")
 			for _, k := range [][2]string{{"Min", "X"}, {"Min", "Y"}, {"Max", "X"}, {"Max", "Y"}} {
 				v := leaf(pr, k[0], k[1])
 				if v == nil || v.k != kScalar {
@@ -183,68 +246,170 @@ func (p *Program) ruleCollectionFold(c *Check) {
 				old := "recv.prect." + k[0] + "." + k[1]
 				var want int
 				switch {
+				case empty:
+					if v.name != old {
+						return "an empty child changes the cached rectangle"
+					}
+					continue
 				case first:
-					want = R(cr)
+					want = a.R(cr)
 				case k[0] == "Min":
-					want = imin(R(old), R(cr))
+					want = imin(a.R(old), a.R(cr))
 				default:
-					want = imax(R(old), R(cr))
+					want = imax(a.R(old), a.R(cr))
 				}
-				if R(v.name) != want {
+				if a.R(v.name) != want {
 					if first {
 						return "the first non-empty child does not initialise prect." + k[0] + "." + k[1] + " (got " + v.name + ")"
 					}
 					return "prect." + k[0] + "." + k[1] + " is not the union with the child's rectangle (got " + v.name + ")"
 				}
 			}
+			if empty {
+				if havePre && peVal != pre0 {
+					return "an empty child changes the cached emptiness"
+				}
+				return ""
+			}
+			if peVal {
+				return "after a non-empty child the collection is still marked empty"
+			}
 			return ""
 		}}
 	p.runE8(c, row)
-	// the counter must count exactly the non-skipped iterations: incremented unconditionally in the step
-	inc := false
-	for _, st := range step {
-		if ids, ok := st.(*ast.IncDecStmt); ok && ids.Tok == token.INC {
-			inc = true
-		}
-	}
-	c.Expect(inc, "E10.fold", name+"#counter", p.Pos(fold.Pos()), "the non-empty counter is incremented once per non-skipped child", "the counter of non-empty children is not incremented unconditionally in the fold step")
-	// the index-building loop
-	build := loops[1]
-	bchild := types.ExprString(build.Value)
-	okBuild := len(build.Body.List) > 0 && isSkipEmpty(build.Body.List[0], bchild)
-	insertOK := false
-	ast.Inspect(build.Body, func(n ast.Node) bool {
-		call, ok := n.(*ast.CallExpr)
-		if !ok || !strings.HasSuffix(types.ExprString(call.Fun), ".Insert") || len(call.Args) != 3 {
-			return true
-		}
-		a0, a1, a2 := p.src(call.Args[0]), p.src(call.Args[1]), types.ExprString(call.Args[2])
-		if a2 == bchild && strings.Contains(a0, ".Min.X") && strings.Contains(a0, ".Min.Y") && strings.Contains(a1, ".Max.X") && strings.Contains(a1, ".Max.Y") {
-			// the rectangle variable must be child.Rect()
-			rv := a0[strings.Index(a0, "{")+1 : strings.Index(a0, ".Min.X")]
-			ast.Inspect(build.Body, func(m ast.Node) bool {
-				if as, ok := m.(*ast.AssignStmt); ok && len(as.Lhs) == 1 && types.ExprString(as.Lhs[0]) == rv && types.ExprString(as.Rhs[0]) == bchild+".Rect()" {
-					insertOK = true
+	// the index-building loop: Insert(child.Rect() corners, child) exactly for the non-empty children
+	brow := &e8row{id: name + "#tree-build", fn: build.fn,
+		what: "the child index receives exactly the non-empty children, each under its own Rect()",
+		run: func(in *e8interp) *e8out {
+			fr, out := p.bindInputs(in, build.fn)
+			out.signal = in.runBody(fr, build.loop.Body.List)
+			return out
+		},
+		spec: func(a *e8assign, n *e8names, out *e8out) string {
+			eName := firstBool(n, reEmpty)
+			if eName == "" {
+				return "the child's emptiness is never consulted before it is inserted"
+			}
+			ins := out.in.called("Insert")
+			if a.B(eName) {
+				if len(ins) != 0 {
+					return "an empty child is inserted into the index"
 				}
-				return true
-			})
-		}
-		return true
-	})
-	c.Expect(okBuild && insertOK, "E10.index", name+"#tree-build", p.Pos(build.Pos()),
-		"the child index receives exactly the non-empty children, each under its own Rect()",
-		"the child R-tree is not built from (child.Rect(), child) of exactly the non-empty children: indexed and linear Search would disagree")
-	_ = info
+				return ""
+			}
+			if len(ins) != 1 {
+				return fmt.Sprintf("a non-empty child is inserted %d times", len(ins))
+			}
+			args := ins[0].args
+			if len(args) < 4 {
+				return "unexpected Insert arguments"
+			}
+			child := types.ExprString(build.loop.Value)
+			want := [][2]string{{"Min.X", "Min.Y"}, {"Max.X", "Max.Y"}}
+			for i, w := range want {
+				box := args[1+i]
+				for j, suffix := range w {
+					l := leaf(box, fmt.Sprint(j))
+					if l == nil || l.k != kScalar || l.name != "Rect("+child+")."+suffix {
+						got := "?"
+						if l != nil {
+							got = l.name
+						}
+						return "the inserted box is not the child's own Rect() (corner " + suffix + " is " + got + ")"
+					}
+				}
+			}
+			if v := args[3]; v == nil || v.name != child {
+				return "the value stored in the index is not the child itself"
+			}
+			return ""
+		}}
+	p.runE8(c, brow)
 }
 
 func (p *Program) ruleCollectionSearch(c *Check) {
 	fn := p.Method("geojson", "collection", "Search")
-	fd := p.Decl(fn)
 	name := "(*geojson.collection).Search"
+	fd := p.Decl(fn)
 	if fd == nil {
 		c.Undecided("E10.search", name, "", "function not found")
 		return
 	}
+	loops := p.childLoops(fn, 0, map[*types.Func]bool{})
+	if len(loops) == 0 {
+		c.Undecided("E10.search", name+"#linear", p.declPos(fn), "linear arm (a loop over the children) not found in Search or its helpers")
+	} else {
+		ls := loops[0]
+		iterName := ""
+		if lfd := p.Decl(ls.fn); lfd != nil {
+			for _, f := range lfd.Type.Params.List {
+				if _, ok := f.Type.(*ast.FuncType); ok && len(f.Names) > 0 {
+					iterName = f.Names[0].Name
+				}
+			}
+		}
+		row := &e8row{id: name + "#linear", fn: ls.fn,
+			what: "the linear arm calls the iterator exactly for the non-empty children whose Rect() meets the query rectangle (closed boxes), with the child itself, and stops when it returns false",
+			run: func(in *e8interp) *e8out {
+				fr, out := p.bindInputs(in, ls.fn)
+				out.signal = in.runBody(fr, ls.loop.Body.List)
+				return out
+			},
+			pre: func(a *e8assign, n *e8names) bool {
+				for _, pre := range [][2]string{{".Min.X", ".Max.X"}, {".Min.Y", ".Max.Y"}} {
+					for _, s := range n.scalars {
+						if strings.HasSuffix(s, pre[0]) {
+							t := strings.TrimSuffix(s, pre[0]) + pre[1]
+							if a.has(s, t) && a.R(s) > a.R(t) {
+								return false
+							}
+						}
+					}
+				}
+				return true
+			},
+			spec: func(a *e8assign, n *e8names, out *e8out) string {
+				eName := firstBool(n, reEmpty)
+				if eName == "" {
+					return "the child's emptiness is never consulted"
+				}
+				crect, query := "", ""
+				for _, s := range n.scalars {
+					if m := reRectMinX.FindStringSubmatch(s); m != nil {
+						crect = m[1]
+					} else if strings.HasSuffix(s, ".Min.X") {
+						query = strings.TrimSuffix(s, ".Min.X")
+					}
+				}
+				if crect == "" || query == "" {
+					return "the child's rectangle is not compared with the query rectangle"
+				}
+				meets := a.R(crect+".Min.X") <= a.R(query+".Max.X") && a.R(crect+".Max.X") >= a.R(query+".Min.X") &&
+					a.R(crect+".Min.Y") <= a.R(query+".Max.Y") && a.R(crect+".Max.Y") >= a.R(query+".Min.Y")
+				want := !a.B(eName) && meets
+				calls := out.in.called(iterName)
+				child := types.ExprString(ls.loop.Value)
+				if want != (len(calls) == 1) {
+					return fmt.Sprintf("iterator called %d times for a child that is empty=%v and whose box meets the query=%v", len(calls), a.B(eName), meets)
+				}
+				if len(calls) == 1 {
+					if len(calls[0].args) != 1 || calls[0].args[0] == nil || calls[0].args[0].name != child {
+						return "the iterator does not receive the child itself"
+					}
+					res := a.B(calls[0].name)
+					stopped := out.signal != nil && out.signal != continueSignal
+					if !res && !stopped {
+						return "the iterator returned false but the scan goes on"
+					}
+					if res && stopped {
+						return "the scan stops although the iterator returned true"
+					}
+				}
+				return ""
+			}}
+		p.runE8(c, row)
+	}
+	// indexed arm
 	var rectParam, iterParam string
 	for _, f := range fd.Type.Params.List {
 		for _, n := range f.Names {
@@ -255,49 +420,6 @@ func (p *Program) ruleCollectionSearch(c *Check) {
 			}
 		}
 	}
-	// linear arm
-	var loop *ast.RangeStmt
-	ast.Inspect(fd.Body, func(n ast.Node) bool {
-		if rs, ok := n.(*ast.RangeStmt); ok && strings.HasSuffix(types.ExprString(rs.X), ".children") {
-			loop = rs
-		}
-		return true
-	})
-	if loop == nil {
-		c.Undecided("E10.search", name+"#linear", p.declPos(fn), "linear arm not found")
-	} else {
-		child := types.ExprString(loop.Value)
-		skip := len(loop.Body.List) > 0 && isSkipEmpty(loop.Body.List[0], child)
-		filtered := false
-		ast.Inspect(loop.Body, func(n ast.Node) bool {
-			is, ok := n.(*ast.IfStmt)
-			if !ok {
-				return true
-			}
-			cond := types.ExprString(is.Cond)
-			if cond == child+".Rect().IntersectsRect("+rectParam+")" || cond == rectParam+".IntersectsRect("+child+".Rect())" {
-				ast.Inspect(is.Body, func(m ast.Node) bool {
-					if call, ok := m.(*ast.CallExpr); ok && types.ExprString(call.Fun) == iterParam && len(call.Args) == 1 && types.ExprString(call.Args[0]) == child {
-						filtered = true
-					}
-					return true
-				})
-			}
-			return true
-		})
-		// no unfiltered iter call in the loop
-		calls := 0
-		ast.Inspect(loop.Body, func(n ast.Node) bool {
-			if call, ok := n.(*ast.CallExpr); ok && types.ExprString(call.Fun) == iterParam {
-				calls++
-			}
-			return true
-		})
-		c.Expect(skip && filtered && calls == 1, "E10.search", name+"#linear", p.Pos(loop.Pos()),
-			"reports exactly the non-empty children whose Rect() meets the query rectangle",
-			"the linear arm does not apply the two filters of the indexed arm (skip empty children; child.Rect().IntersectsRect(query)) to every callback")
-	}
-	// indexed arm
 	okTree := false
 	ast.Inspect(fd.Body, func(n ast.Node) bool {
 		call, ok := n.(*ast.CallExpr)
@@ -385,7 +507,6 @@ func (p *Program) ruleFolds(c *Check) {
 			r := types.ExprString(ret.Results[0])
 			okRet = r == "true" || (flag != "" && r == flag)
 		}
-		// the exterior of a polygon is tested too
 		extra := true
 		if f.typ == "Poly" {
 			extra = false
@@ -416,7 +537,6 @@ func (p *Program) ruleFolds(c *Check) {
 		})
 		c.Expect(ok, "E10.sum", FuncName(fn), p.declPos(fn), "the point count is the sum over all children", "NumPoints is not the sum of the children's point counts")
 	}
-	// collection.Valid/Center/Empty/Rect forward to the cached values
 	for _, m := range []struct{ name, want string }{{"Empty", "recv.pempty"}, {"Rect", "recv.prect"}} {
 		mf := p.Method("geojson", "collection", m.name)
 		sh, ok := p.shapeOf(mf)
